@@ -108,7 +108,7 @@ def openBoth (m : Nat) (s : Nat → Nat) (c : Nat) (f : Nat × Nat) : Option Nat
   | some a, some _ => some a
   | _, _ => none
 
-theorem openBoth_sound (m : Nat) (s : Nat → Nat) (c : Nat) (hc : c < 3) (f : Nat × Nat) :
+theorem openBoth_sound (m : Nat) (s : Nat → Nat) (c : Nat) (_hc : c < 3) (f : Nat × Nat) :
     openBoth m s c f = none ∨ openBoth m s c f = some (reconstruct m s) := by
   have h1 := reveal_tamper m s c (nxt c) (by unfold nxt; omega) (by unfold nxt; omega) f.1 f.2
   have h2 := reveal_tamper m s c (prv c) (by unfold prv; omega) (by unfold prv; omega) f.1 f.2
@@ -298,6 +298,23 @@ theorem shufflePhase_sound {σ τ F H : Type} [DecidableEq H] (E : ShuffleEnc σ
           exact ⟨i, by simp [heldRows_length]; exact h2, by simp⟩
       simp only [shufflePhase, hacc, if_true, hsame]
   · left; simp [shufflePhase, hacc]
+
+/-- **Key secrecy is necessary (finding F14).** `shufflePhase`'s bad event is rare only for keys the adversary
+does not know when it chooses the altered row (`tag_detects`). If it knows the keys, *every* change `d` of the data
+words goes through: shift the tag by `Σ keyᵢ·dᵢ` and the row's check value is unchanged — the hash comparison of
+`verify_shuffle` cannot notice. In `malicious_sharded_shuffle` H1's part of the shuffle rounds ends (after the
+`cardinality` word from H2) before H2 and H3 exchange `c₁`, `c₂`; H1 then opens its key shares, and the share it
+sends to H2 is the one H2 lacks. Replayed on the real code by `c02_tamper` (`macshift` cases: accepted, different
+histogram). -/
+theorem known_key_forgery_counterexample {F : Type} (G : IpaVerif.C05.TagField F) (keys w d : List F) (t : F)
+    (h : w.length = d.length) :
+    IpaVerif.C05.check G keys (IpaVerif.C05.vadd G w d) (G.add t (IpaVerif.C05.ip G d keys))
+      = IpaVerif.C05.check G keys w t := by
+  rw [IpaVerif.C05.check_add G keys w d t _ h, IpaVerif.C05.check_honest, G.add_zero]
+
+/-- a concrete forged row over GF(2) with keys `[1, 1]`: data `[1,0] → [0,0]`, tag `1 → 0` verifies like the original -/
+example : IpaVerif.C05.check IpaVerif.C05.gf2 [true, true] [false, false] false
+    = IpaVerif.C05.check IpaVerif.C05.gf2 [true, true] [true, false] true := by decide
 
 /-! ## MAC-protected arithmetic (`validator.rs`, `prf_eval.rs`) -/
 
